@@ -135,7 +135,28 @@ Inductive lex_mode :=
 | LClass (neg : bool) (first : bool) (items : list (N * N)) (prev : option N)
 | LClassEscape (neg : bool) (items : list (N * N)) (prev : option N)
 | LClassRange (neg : bool) (items : list (N * N)) (lo : N)      (* after "lo-" *)
-| LClassRangeEscape (neg : bool) (items : list (N * N)) (lo : N).
+| LClassRangeEscape (neg : bool) (items : list (N * N)) (lo : N)
+| LClassNamedStart (neg : bool) (items : list (N * N))            (* after "[" seen before ":" *)
+| LClassNamed (neg : bool) (items : list (N * N)) (name : bytes)  (* after "[:", name reversed *)
+| LClassNamedEnd (neg : bool) (items : list (N * N)) (name : bytes). (* after "[:name:" *)
+
+(** Named classes as byte ranges, with gix-glob's definitions (wildmatch.rs:300-370; note that
+    its [:blank:] is ASCII whitespace and its [:space:] is the space only). *)
+Definition named_class (name : bytes) : option (list (N * N)) :=
+  let is s := bytes_eqb name s in
+  if is [97;108;110;117;109] then Some [(48,57); (65,90); (97,122)]            (* alnum *)
+  else if is [97;108;112;104;97] then Some [(65,90); (97,122)]                 (* alpha *)
+  else if is [98;108;97;110;107] then Some [(9,10); (12,13); (32,32)]          (* blank *)
+  else if is [99;110;116;114;108] then Some [(0,31); (127,127)]                (* cntrl *)
+  else if is [100;105;103;105;116] then Some [(48,57)]                         (* digit *)
+  else if is [103;114;97;112;104] then Some [(33,126)]                         (* graph *)
+  else if is [108;111;119;101;114] then Some [(97,122)]                        (* lower *)
+  else if is [112;114;105;110;116] then Some [(32,126)]                        (* print *)
+  else if is [112;117;110;99;116] then Some [(33,47); (58,64); (91,96); (123,126)] (* punct *)
+  else if is [115;112;97;99;101] then Some [(32,32)]                           (* space *)
+  else if is [117;112;112;101;114] then Some [(65,90)]                         (* upper *)
+  else if is [120;100;105;103;105;116] then Some [(48,57); (65,70); (97,102)]  (* xdigit *)
+  else None.
 
 Definition push_star (acc : list token) : list token :=
   match acc with
@@ -162,10 +183,14 @@ Fixpoint lex (l : bytes) (m : lex_mode) (acc : list token) : list token :=
           else
             (* first member of a non-negated class; handled like any first member *)
             if b =? BSLASH then lex t (LClassEscape false [] None) acc
+            else if (b =? LBRACK) && match t with c :: _ => c =? 58 | [] => false end
+            then lex t (LClassNamedStart false []) acc
             else lex t (LClass false false [(b, b)] (Some b)) acc
       | LClass neg first items prev =>
           if (b =? RBRACK) && negb first then lex t LNormal (TClass neg items :: acc)
           else if b =? BSLASH then lex t (LClassEscape neg items prev) acc
+          else if (b =? LBRACK) && match t with c :: _ => c =? 58 | [] => false end
+          then lex t (LClassNamedStart neg items) acc
           else if (b =? DASH) && negb first then
             match prev, t with
             | Some lo, nxt :: _ =>
@@ -181,6 +206,19 @@ Fixpoint lex (l : bytes) (m : lex_mode) (acc : list token) : list token :=
           else lex t (LClass neg false ((lo, b) :: items) None) acc
       | LClassRangeEscape neg items lo =>
           lex t (LClass neg false ((lo, b) :: items) None) acc
+      | LClassNamedStart neg items => lex t (LClassNamed neg items []) acc   (* the colon *)
+      | LClassNamed neg items name =>
+          (* well-formed named classes only: "[:" letters ":]" *)
+          if b =? 58 then lex t (LClassNamedEnd neg items name) acc
+          else if b =? RBRACK then TBad :: acc
+          else lex t (LClassNamed neg items (b :: name)) acc
+      | LClassNamedEnd neg items name =>
+          if b =? RBRACK then
+            match named_class (rev name) with
+            | Some rs => lex t (LClass neg false (rs ++ items) None) acc
+            | None => TBad :: acc
+            end
+          else TBad :: acc
       end
   end.
 
@@ -450,6 +488,38 @@ Record case := mk_case {
 Definition model_stack (c : case) : stack (pat := pattern) :=
   map (fun e => (fst e, parse_file (snd e))) (c_files c).
 
+(** Known-finding class [globstar-after-literal-prefix]: some pattern that is matched against
+    the whole relative path has a literal prefix not ending in a slash, directly followed by two
+    or more stars and then a slash or the end (e.g. "b**/c"). Git matches the literal prefix
+    first and hands only the rest ("**/c") to wildmatch, where the stars then count as a proper
+    globstar; gix-glob (jj) matches the whole pattern, where they are ordinary stars. *)
+Definition is_glob_byte (b : N) : bool :=
+  (b =? STAR) || (b =? QMARK) || (b =? LBRACK) || (b =? BSLASH).
+
+Fixpoint after_stars (l : bytes) : bool :=
+  match l with
+  | [] => true
+  | b :: t => if b =? STAR then after_stars t else b =? SLASH
+  end.
+
+Fixpoint quirk_text (l : bytes) (prev : option N) : bool :=
+  match l with
+  | [] => false
+  | b :: t =>
+      if is_glob_byte b then
+        (b =? STAR)
+        && match t with c :: t' => (c =? STAR) && after_stars t' | [] => false end
+        && match prev with Some c => negb (c =? SLASH) | None => false end
+      else quirk_text t (Some b)
+  end.
+
+Definition quirk (p : pattern) : bool :=
+  negb (p_no_sub_dir p && negb (p_absolute p)) && quirk_text (p_text p) None.
+
+Definition known_class (c : case) : bool :=
+  existsb quirk (parse_file (c_base c))
+  || existsb (fun e => existsb quirk (parse_file (snd e))) (c_files c).
+
 (** Property on the implementation's outputs: jj and Git give the same answer. *)
 Definition okb (c : case) : bool :=
   negb (c_panicked c) && forallb (fun q => Bool.eqb (q_jj q) (q_git q)) (c_queries c).
@@ -461,4 +531,4 @@ Definition check_case (c : case) : N :=
     forallb (fun q => Bool.eqb (jj_ignored pm_model p_negative st (parse_file (c_base c))
                                           (q_path q) (q_is_dir q)) (q_jj q))
             (c_queries c) in
-  verdict corr (okb c) false 1.
+  verdict corr (okb c) (known_class c && negb (okb c)) 1.
